@@ -6,3 +6,4 @@ import BufrProps.C11
 #print axioms Bufr.C11.C11_skip_any
 #print axioms Bufr.C11.C11_fields
 #print axioms Bufr.C11.C11_padstring
+#print axioms Bufr.C11.C11_skip_past_end
